@@ -23,6 +23,7 @@ type Obl struct {
 	Prefix  int
 	Goal    string
 	Canary  bool // expected to be refutable (vacuity guard)
+	ExpectDead bool // canary of a return the contract declares unreachable (dead-return)
 	Cover   bool // expected satisfiable: goal is a reachability condition
 	Result  string
 	Solver  string
@@ -116,6 +117,11 @@ type Gen struct {
 	UsedSpecs map[string]bool
 	frozen   bool
 	nret     int
+	retOrd   map[*ssa.Return]int // source-order ordinal of every return statement
+	valPrefix string     // prefix of value and block names while a callee is translated in place
+	inlStack []*inlFrame
+	inlRoot  *ssa.Function
+	inlCount int
 	isC      bool
 	cPos     string
 	cLoopStack []*Loop
